@@ -92,6 +92,7 @@ def classify(case, impl, model, disc):
 LEVEL_TEXT = ("Proof: C12_host_iteration / C12_host_no_step (half-open containment, for every family of steps no two of which contain the same instant), "
               "C12_device_iteration (inherits the linked host call's, -1 if unlinked), C12_trim_exact (kept host rows = those starting before the last step "
               "starts / no later than its end; kept device rows = those whose id is carried by a kept host row; nothing else), C12_trim_noop_lt2, "
-              "C12_trim_no_dup, C12_last_step_end. Correspondence on the iteration column, the kept id set and get_iterations().")
+              "C12_trim_no_dup, C12_last_step_end. Correspondence on the iteration column, the kept id set and get_iterations()."
+              " C12_trim_no_dup now without any uniqueness hypothesis (no row is duplicated for any event mix); C12_resolution_independent: times multiplied by k > 0 change no iteration number and keep exactly the same rows.")
 LEVEL_NOTE = ("Hand model of add_iteration (_get_profiler_step: last match wins) and _filter_irrelevant_gpu_kernels. Trusted: harness, pandas.")
 TECHNIQUE = "Coq proof over a Gallina model of iteration assignment and trimming + differential correspondence via vm_compute"
